@@ -95,14 +95,15 @@ def single_templates(tier):
 def nested_templates(tier):
     out = []
     parents = [dict(define="v1 string:outer"), dict(condition="t"), dict(condition="f"), dict(repeat="it seq2"), dict(repeat="o seq3"), dict(omit=""), dict(attributes="title s1"),
-               dict(define="v1 s1", repeat="it seq2"), dict(content=("c", "default")), dict(content=("c", "s1")), dict(repeat="it seq2", omit="")]
+               dict(define="v1 s1", repeat="it seq2"), dict(repeat="it seq3", attributes="id attrs/title; lang attrs/class | string:none"), dict(repeat="it seq2", omit="attrs/nosuch | f"),
+               dict(content=("c", "default")), dict(content=("c", "s1")), dict(repeat="it seq2", omit="")]
     children = [dict(content=("c", "v1 | string:unset")), dict(content=("c", "it | string:noit")), dict(repeat="j seq2", content=("c", "string:${it | nothing}/${j}/${repeat/j/number}")),
                 dict(define="v1 string:inner", content=("c", "v1")), dict(condition="exists:it", content=("c", "it")), dict(attributes="title it | default", content=("c", "repeat/it/index | string:-")),
-                dict(repeat="it seq1", content=("c", "it")), dict(define="global gg string:G", content=("c", "gg")), dict(omit="", content=("c", "s1")), dict(replace_=1, content=("r", "it | s1"))]
+                dict(repeat="it seq1", content=("c", "it")), dict(attributes="title attrs/class", content=("c", "attrs/class")), dict(define="global gg string:G", content=("c", "gg")), dict(omit="", content=("c", "s1")), dict(replace_=1, content=("r", "it | s1"))]
     for p in parents:
         for c in children:
             c2 = {k: v for k, v in c.items() if k != "replace_"}
-            inner = element(tag="span", body="child-body", static='class="c"', **c2)
+            inner = element(tag="span", body="child-body", static='class="c" title="child-title"', **c2)
             after = element(tag="b", body="after", static="", content=("c", "v1 | it | string:restored"))
             out.append("<html><body>" + element(body="[" + inner + "]", **p) + after + "</body></html>")
     return out
